@@ -415,6 +415,24 @@ def debug_wrapper_all_sites(ctx):
                     and pmatch("self.evlog_records.append((Q_e, Q_t, Q_f))", e.call) is not None and pmatch("self.evlog_records.append((Q_e, Q_t, Q_f))", e.call)["e"] == lp[0][0][0])
     ctx.check(ok, "C33.debug-wrapper-all-sites", apps[0][1].site if apps else fn.site, "VerilogDebugWrapper.evlog_records", found="; ".join(f"{tstr(e.call)[:80]} over {[tstr(l[1]) for l in loops(e)]} if {fstr(py_guard(e))}" for _, e in apps) or "no site recorded",
               required="(event, trigger, fields) is recorded for every element of get_emitted_events(), unconditionally")
+    # the packed trigger vector: bit k is the trigger of the k-th recorded site, driven combinationally
+    from ..stage import HwAssign, Store
+
+    okp = False
+    detail = "self.evlog_triggers is never assigned"
+    for ex, st in fn.facts(Store, lambda s: s.target == ("a", ("self",), "evlog_triggers") and s.value[0] == "obj"):
+        o = ex.obj(st.value)
+        mw = pmatch("Signal(len(self.evlog_records), name=Q_n)", o.ctor) or pmatch("Signal(len(self.evlog_records))", o.ctor) if o is not None else None
+        ws = [h for h in ex.of(HwAssign) if h.lhs == st.value]
+        detail = f"{tstr(o.ctor) if o is not None else '?'}; " + "; ".join(f"{tstr(h.domain)} += .eq({tstr(h.rhs)[:80]})" for h in ws)
+        for h in ws:
+            mc = pmatch("Cat(Q_g)", h.rhs)
+            if (mw is not None and len(ws) == 1 and h.domain == ("c", "comb") and h.via == "eq" and mc is not None and mc["g"][0] == "lc" and len(mc["g"][3]) == 1
+                    and mc["g"][3][0][1] == ("a", ("self",), "evlog_records") and not mc["g"][3][0][2]
+                    and mc["g"][2] == ("i", (mc["g"][3][0][0][0] if isinstance(mc["g"][3][0][0], tuple) and mc["g"][3][0][0] and isinstance(mc["g"][3][0][0][0], tuple) else mc["g"][3][0][0]), ("c", 1))):
+                okp = True
+    ctx.check(okp, "C33.debug-wrapper-packed-triggers", fn.site, "VerilogDebugWrapper.evlog_triggers", found=detail,
+              required="evlog_triggers = Signal(len(evlog_records)), comb += evlog_triggers.eq(Cat(trigger of every recorded site, in order))")
     recs = fn.facts(Effect, lambda e: pmatch("self.records.append(Q_x)", e.call) is not None)
     okr = any(len(loops(e)) == 1 and pmatch("logging.get_log_records(0)", loops(e)[0][1]) is not None and py_guard(e) is True for _, e in recs)
     ctx.check(okr, "C33.debug-wrapper-all-sites", recs[0][1].site if recs else fn.site, "VerilogDebugWrapper.records", found=f"{len(recs)} append(s)",
